@@ -31,6 +31,124 @@ TRUSTED_COMMON = [
 ]
 
 
+TRUSTED_GEN = [
+    "tools/gotrans (Go -> MiniGo translator, go/parser based, purely syntactic; regenerates coq/GenSrc.v on every run) and coq/MiniGo.v (the hand-written semantics of the MiniGo terms: unbounded int, value-semantics slices with write-back of receivers, panic messages ignored, generics as an opaque element type, interfaces resolved by dynamic type name); coq/GenRep.v (how model states are represented as MiniGo values)",
+]
+
+
+def enclosing_lemma(vfile, line):
+    """name of the Lemma/Theorem/... that contains the given line of a .v file"""
+    name = None
+    for n, l in enumerate(open(vfile, encoding='utf-8').read().split('\n'), 1):
+        if n > line:
+            break
+        m = re.match(r'\s*(Lemma|Theorem|Corollary|Example|Fact|Proposition|Definition|Fixpoint)\s+(\w+)', l)
+        if m:
+            name = m.group(2)
+    return name
+
+
+def gen_check(drv, pid, cfg, info, seed, tier, viol_so_far):
+    """The proofs about the GENERATED code (coq/GenSrc.v, regenerated from the Go sources by tools/gotrans): compile
+    the property's Gen*.v files; when one no longer checks, evaluate the property's small-domain sweeps
+    (coq/GenSweep.v: generated code against model function) and report the disagreeing inputs.
+    Returns (number of violations, evidence)."""
+    rep = info.get('gotrans_report') or {}
+    mine = [f for f in rep.get('functions', []) if pid in f.get('props', [])]
+    ev = dict(translator=info.get('gotrans'), functions=[dict(function='%s.%s' % (f['type'], f['method']), source='%s:%d-%d' % (f['file'], f['start_line'], f['end_line']),
+                                                               sha256=f['sha256'], term='GenSrc.' + f['coq']) for f in mine],
+              gen_proofs=cfg['gen_proofs'])
+    errs = [e for e in rep.get('errors', []) if pid in e.get('props', [])]
+    if errs:
+        # a selected function is missing or has left the subset the translator understands
+        violation(drv, pid, dict(property=pid, seed=seed, tier=tier, case='gentrans', kind='proof-obligation', stage='gotrans',
+                                 theorem_or_correspondence='the Go -> MiniGo translator (tools/gotrans) can no longer translate a function that the theorems of %s are about; they are not re-checked against the current source' % ', '.join(cfg['gen_proofs']),
+                                 translator_messages=['%s: %s.%s: %s' % (e['pos'], e['type'], e['method'], e['msg']) for e in errs]),
+                  'no-failing-input-found')
+        ev['translator_errors'] = errs
+        return 1, ev
+    t0 = time.time()
+    failed = None
+    out = ''
+    with drv.Lock():
+        prev = [os.path.join(drv.COQ, x) for x in ('GenSrc.vo', 'GenLib.vo', 'GenRep.vo')]
+        for i, f in enumerate(cfg['gen_proofs']):
+            src, vo = os.path.join(drv.COQ, f), os.path.join(drv.COQ, f[:-2] + '.vo')
+            last = i == len(cfg['gen_proofs']) - 1
+            fresh = os.path.exists(vo) and all(os.path.getmtime(vo) >= os.path.getmtime(d) for d in prev + [src] if os.path.exists(d))
+            if not fresh or last:
+                rc, out = drv.run(['timeout', '900', 'coqc', '-R', drv.COQ, 'Verif', src], cwd=drv.COQ)
+                if rc != 0:
+                    failed = f
+                    if os.path.exists(vo):
+                        os.remove(vo)
+                    break
+            prev.append(vo)
+    ev['gen_proofs_s'] = round(time.time() - t0, 1)
+    # the small-domain sweeps (generated code against model function) are evaluated on every run: they also cover
+    # translated functions about which no lemma is proved yet, and they supply the failing input when a proof breaks
+    ids = {}
+    for mm in re.finditer(r'Notation id_(\w+) := (\d+)%positive', open(os.path.join(drv.COQ, 'GenSrc.v')).read()):
+        ids[mm.group(2)] = mm.group(1)
+    outdir = os.path.join(drv.BUILD, pid)
+    sw = os.path.join(outdir, 'gensweep.v')
+    open(sw, 'w').write('From Verif Require Import Base MiniGo GenSrc GenRep GenSweep.\n'
+                        'Definition S := Eval vm_compute in sweeps_%s.\n'
+                        'Definition N := Eval vm_compute in length S.\nPrint N.\n' % pid +
+                        ''.join('Definition S%d := Eval vm_compute in nth_error S %d.\nPrint S%d.\n' % (k, k, k) for k in range(3)))
+    ts = time.time()
+    rc, sout = drv.run(['timeout', '900', 'coqc', '-R', drv.COQ, 'Verif', sw], cwd=outdir)
+    ev['sweep_s'] = round(time.time() - ts, 1)
+    n = re.search(r'N = (\d+)', sout)
+    count = int(n.group(1)) if (rc == 0 and n) else None
+    ev['sweep_disagreements'] = count
+    lemma = where = None
+    if failed is not None:
+        m = re.search(r'File "[^"]*?([\w.]+\.v)", line (\d+), characters', out)
+        lemma = enclosing_lemma(os.path.join(drv.COQ, m.group(1)), int(m.group(2))) if m else None
+        where = '%s:%s' % (m.group(1), m.group(2)) if m else failed
+        ev['failed'] = dict(file=failed, lemma=lemma, at=where)
+    common = dict(property=pid, seed=seed, tier=tier, kind='generated-code',
+                  lemma_that_no_longer_checks=lemma, at=where, coqc_output=out[-2500:] if failed else None,
+                  functions=[e['function'] + ' ' + e['source'] for e in ev['functions']],
+                  rerun='./check %s' % pid)
+    nv = 0
+    if count is None:
+        nv += 1
+        violation(drv, pid, dict(common, case='gensweep', kind='proof-obligation',
+                                 theorem_or_correspondence='the sweeps of coq/GenSweep.v (sweeps_%s) could not be evaluated' % pid, output=sout[-2000:]),
+                  'no-failing-input-found')
+    elif count > 0:
+        for k in range(min(count, 3)):
+            mm = re.search(r'S%d = (.*?)\n\s*: option disagreement' % k, sout, re.S)
+            txt = re.sub(r'\s+', ' ', mm.group(1)) if mm else '?'
+            txt = re.sub(r'(\d+)%positive', lambda x: ids.get(x.group(1), x.group(0)), txt)
+            nv += 1
+            violation(drv, pid, dict(common, case='gen%d' % k,
+                                     explanation='the MiniGo term generated from the current Go source and the model function the theorems are about disagree on this input (found by the exhaustive small-domain sweep coq/GenSweep.v: sweeps_%s; %d disagreeing inputs in all). d_method = the method, d_recv = the receiver before the call, d_args = the arguments, d_model = what the model says (result, receiver afterwards), d_generated = what the generated code does' % (pid, count),
+                                     failing_input=txt))
+    if failed is None:
+        txt = ' | '.join(l.rstrip() for l in out.split('\n') if l.strip())
+        names = re.findall(r'Print Assumptions\s+(\w+)', open(os.path.join(drv.COQ, cfg['gen_proofs'][-1])).read())
+        ev['print_assumptions'] = 'Print Assumptions of %s (in order %s): %s' % (cfg['gen_proofs'][-1], ', '.join(names), txt)
+        bad = [l for l in out.split('\n') if l.strip() and 'Closed under the global context' not in l]
+        if bad or not names:
+            nv += 1
+            violation(drv, pid, dict(property=pid, seed=seed, tier=tier, case='genproof', kind='proof-obligation',
+                                     theorem_or_correspondence='%s compiles but its theorems are not closed under the global context' % cfg['gen_proofs'][-1],
+                                     output=out[-3000:]), 'no-failing-input-found')
+    elif nv == 0 and viol_so_far == 0:
+        # a proof about the generated code no longer checks and no input was found on which code and model differ
+        nv = 1
+        violation(drv, pid, dict(common, case='genproof',
+                                 theorem_or_correspondence='the lemma %s of %s about the code generated from the current Go source no longer checks; the small-domain sweeps (sweeps_%s) and the correspondence run found no input on which generated code and model differ' % (lemma, failed, pid),
+                                 sweep_output=sout[-800:]), 'no-failing-input-found')
+    else:
+        nv += 1
+        print('(a proof about the generated code no longer checks: %s in %s)' % (lemma, where), flush=True)
+    return nv, ev
+
+
 def assumptions_of(drv, pid):
     """compile the property file once more (cheap) to capture its Print Assumptions output"""
     pf = os.path.join(drv.COQ, pid + '.v')
@@ -101,7 +219,7 @@ def check(drv, pid, tier, seed):
     ok, info = drv.build_all(bool(cfg.get('race')))
     if not ok:
         stage = info.get('stage')
-        if stage in ('coq', 'hygiene', 'genparams'):
+        if stage in ('coq', 'hygiene', 'genparams', 'gotrans'):
             # a proof obligation (or the translator's expectation) no longer checks
             tail = info.get('output', '')[-3000:]
             more = {}
@@ -256,7 +374,11 @@ def check(drv, pid, tier, seed):
         print('KNOWN-FINDING: property=%s %s' % (pid, k['what']), flush=True)
     if viol > reported:
         print('(%d further mismatching cases not written out)' % (viol - reported))
-    nobl, names = drv.count_obligations(cfg['files'] + list(cfg.get('late_files') or []))
+    gen_extra = None
+    if cfg.get('gen_proofs'):
+        nv, gen_extra = gen_check(drv, pid, cfg, info, seed, tier, viol)
+        viol += nv
+    nobl, names = drv.count_obligations(cfg['files'] + list(cfg.get('late_files') or []) + list(cfg.get('gen_proofs') or []))
     ndis = nobl
     if static is not None and not static['ok']:
         ndis = nobl - max(1, len(static.get('failing_lemmas') or []))
@@ -275,12 +397,13 @@ def check(drv, pid, tier, seed):
     ev = dict(property_id=pid, tier=tier, seed=seed, level='proof',
               coverage=dict(obligations=nobl, discharged=ndis,
                             checker_cmd='cd /verif/coq && coq_makefile -f _CoqProject -o Makefile && make -j16  (coqc 8.16.1, full .vo build); then coqc on build/%s/cases_*.v (vm_compute of the model on the generated histories)' % pid,
-                            trusted_base=assumptions_of(drv, pid) + (static.get('assumptions', []) if static is not None else []) + TRUSTED_COMMON,
+                            trusted_base=assumptions_of(drv, pid) + (static.get('assumptions', []) if static is not None else []) + TRUSTED_COMMON + (TRUSTED_GEN if cfg.get('gen_proofs') else []),
                             evaluations=meta['cases'], distinct_nontrivial=meta['distinct_nontrivial'], rule=meta['rule'],
                             samples=meta['samples'], steps=meta['steps'],
                             traces_validated_against_impl=meta['cases'],
                             op_histogram=meta.get('op_histogram'), outcome_histogram=meta.get('outcome_histogram'),
                             type_histogram=meta.get('type_histogram'), length_histogram=meta.get('length_histogram'), extra=meta.get('extra'),
+                            generated_code=gen_extra,
                             hangs=meta.get('hangs', 0), mismatching_cases=len(mism), known_findings_reported=sorted(known_hit),
                             params=info.get('genparams'), obligations_files=cfg['files'] + list(cfg.get('late_files') or []), coqchk=coqchk,
                             late_files=(dict(ok=static['ok'], files=static['files'], seconds=static['seconds'], failing_lemmas=static.get('failing_lemmas'),
